@@ -84,7 +84,7 @@ def run(ctx):
                          f"an exception from {s.callee_text}() (user-supplied callable) escapes guard evaluation through "
                          f"{' <- '.join(o.chain)}: the guard does not count as false, later candidates are not considered and "
                          f"send() raises", s.call, path=list(o.chain))
-    c.floor("R2", "user-code call sites under guard evaluation", nsites, 5)
+    c.floor("R2", "user-code call sites under guard evaluation", nsites, 3)
     # ---- R3 missing guard is an error, never a verdict --------------------------
     raises = [x for x in own_nodes(ev.node) if isinstance(x, ast.Raise) and x.exc is not None and "ImplementationMissingError" in norm(x.exc)]
     c.expect("R3", "raise ImplementationMissingError in the evaluator", len(raises), 1, ev, "a guard that is named but not implemented no longer raises ImplementationMissingError: it is silently decided one way")
